@@ -21,6 +21,18 @@ padded fields / decimal and exponent numbers; `shapes` = constructors fed tuples
 handed out edited, Location numbers as text; numeric-edge values (mode 2); clear skies and EPW interpolation at time steps that are not
 binary fractions of an hour, .stat files (missing optical depths refused), Zhang-Huang with pressure / DISC; get_irradiance_value(_for_hoy)
 at every sampled step of annual Weas (known finding C12-get-for-hoy-float-index); Model/WeaCli.lean + ops `cliap`, `hoyidx`.
+
+Round 6 (three classes of subtle maintenance change):
+  * strictness of a range bound (closed vs half-open): period requests whose first / last day sits exactly ON the first / last day of a
+    partial continuous source (plain and year-wrapping), one day inside, one day outside (clipped): `_sub_matrix` (every run), `_sub_period`
+    (random filters, siblings); Model/WeaCli.lean `subsetAP` (= HourlyContinuousCollection._get_analysis_period_subset, observed on the public
+    result of filter_by_analysis_period, op `apsub`), theorems C12_subset_*.
+  * a time lag given in hours where the series is indexed in steps: Zhang-Huang inputs of a sub-hourly timestep in EVERY run (oracle op sky/zh,
+    every step); `zhLagIndex` + op `zhlag` (the series the sky model receives), theorems C12_zh_lag_*.  The other shifts of the anchored code
+    (half-hour shift of hourly data, DAYSIM shift of timestep / 2 positions) were already run at hourly and sub-hourly timesteps in every run.
+  * a branch chosen from a summary of the data (row count, length) instead of the data: year-sized Weas that are not 1 Jan - 31 Dec (a whole
+    year from another first day, wrapping the year end; the same one day short) through file and dictionary round trips and through the
+    from_file model (`read:year_count_*`); theorem C12_file_year_sized_by_rows.
 """
 import io
 import json
@@ -69,6 +81,9 @@ RULE = ('correspondence: _get_datetimes / public datetimes of annual Weas at bou
         'non-matching (timestep, leap) of the data, and malformed texts, against Model/WeaCli.lean; `hoyidx` = index of get_irradiance_value_for_hoy; '
         'oracle ops cli_ap, siblings, file_shapes, shapes (see the module docstring); every sequence argument also as tuple and one-shot iterable '
         '(a one-shot iterable may be refused, never answered wrongly); branch counters `branch:*`. '
+        'Round 6: `apsub` (period a partial continuous source is filtered with, requests on / next to the boundary days of plain and wrapping sources), '
+        '`zhlag` (position of the value of three hours earlier, hourly and sub-hourly), year-sized files that do not start on 1 Jan; oracle: boundary-day matrix of '
+        'sub-period filters in every run, sub-hourly Zhang-Huang inputs in every run, year-sized wrapping Weas through file / dict round trips. '
         'non-trivial = the implementation returns a value; distinct = distinct (op, input)')
 TRUSTED_BASE = [
     'modelled, not verified: CPython %-formatting (%.2f/%.3f half-even on the exact binary value, %d truncation), '
@@ -90,6 +105,10 @@ TRUSTED_BASE = [
     'datacollection.py (continuous: header periods, discontinuous: datetimes only); the EPW object (unit state) and the '
     'file system state of the CLI translators are NOT modelled in Lean: histories over them are checked by the oracle on '
     'the real code only; EPW.to_wea is modelled on the (SI) cells of the two columns',
+    'round 6: subsetAP models the day / hour clipping of _get_analysis_period_subset only (tied through the header period of the public filter result); '
+    'the slice arithmetic of the continuous filter stays a C02 parameter, checked by the oracle; zhLagIndex is tied by observing the arguments '
+    'from_zhang_huang_solar hands to ladybug.wea.zhang_huang_solar_split (skipped, counted `zhlag:not_observable`, if the constructor stops '
+    'handing over whole series); the sky model values themselves are oracle-only',
 ]
 ASSUMPTIONS = ['CPython datetime arithmetic is the reference calendar for the oracle',
                'fixes/C12_1_from_file_leap_year.patch, C12_2_sparse_minute_round.patch, '
@@ -557,6 +576,21 @@ def correspondence(ctx):
             moys = [k * (60 // ts) for k in range(_hours(leap) * ts)]
             add_read(ts, leap, _lines_of(leap, ts, moys, False, list(range(len(moys))), list(range(len(moys)))),
                      'annual')
+    # round 6 (branch chosen from a summary): files with exactly the row count of a whole year whose rows are NOT 1 Jan .. 31 Dec -
+    # a whole year that starts on another day (wraps the year end) and one that misses its last day (one day short of the count)
+    for ts in ([1] if ctx.quick else [1, 2, 3]):
+        for leap in ((rng.random() < 0.5,) if ctx.quick else (False, True)):
+            nd = 366 if leap else 365
+            d0 = rng.choice([1, nd - 1, 181, 59, rng.randrange(1, nd)])
+            (m0, da0), (m1, da1) = _md(leap, d0), _md(leap, d0 - 1)
+            moys = _period_moys(ts, leap, m0, da0, m1, da1)
+            add_read(ts, leap, _lines_of(leap, ts, moys, False, list(range(len(moys))), [len(moys) + i for i in range(len(moys))]),
+                     'year_count_wrapping_full_year')
+            if not ctx.quick:
+                (m2, da2) = _md(leap, (d0 - 2) % nd)
+                moys = _period_moys(ts, leap, m0, da0, m2, da2)
+                add_read(ts, leap, _lines_of(leap, ts, moys, False, list(range(len(moys))), list(range(len(moys)))),
+                         'year_count_minus_one_day')
 
     def impl_read(c):
         ts, leap, lines = c
@@ -620,6 +654,17 @@ def correspondence(ctx):
             tag += '|bad_array'
         cases.append((ts, leap, arrs, dn, dh))
         ctx.count('dict:' + tag)
+    # round 6 (branch chosen from a summary): a dictionary with the value count of a whole year whose datetimes start on another day than 1 Jan
+    for leap in ((rng.random() < 0.5,) if ctx.quick else (False, True)):
+        nd = 366 if leap else 365
+        d0 = rng.choice([1, nd - 1, 181, rng.randrange(1, nd)])
+        (m0, da0), (m1, da1) = _md(leap, d0), _md(leap, d0 - 1)
+        arrs = []
+        for m in _period_moys(1, leap, m0, da0, m1, da1):
+            rr = _ref(leap, m)
+            arrs.append([rr.month, rr.day, rr.hour, rr.minute] + ([1] if leap else []))
+        cases.append((1, leap, arrs, len(arrs), len(arrs)))
+        ctx.count('dict:year_count_wrapping_full_year')
 
     def impl_dict(c):
         ts, leap, arrs, dn, dh = c
@@ -896,6 +941,123 @@ def correspondence(ctx):
     compare_batch(ctx, 'cliap', cases, lambda c: 'cliap %d %s %s' % (c[1], _b(c[2]), ' '.join(str(ord(ch)) for ch in c[0])),
                   impl_cliap, canon=_canon_ws, key=lambda c: json.dumps(c))
     weas.clear()
+    _corr_round6(ctx)
+
+
+def _corr_round6(ctx):
+    """Round 6: `apsub` = the period a continuous (partial) collection is really filtered with (Model/WeaCli.lean subsetAP), observed on the
+    public result of filter_by_analysis_period; `zhlag` = the position of the dry bulb value of three hours earlier that
+    Wea.from_zhang_huang_solar hands to the sky model (zhLagIndex), observed on the arguments the sky model receives."""
+    from ladybug.wea import Wea
+    from ladybug.analysisperiod import AnalysisPeriod
+    from ladybug.datacollection import HourlyContinuousCollection
+    rng = ctx.rng
+    cases = []
+    for k in range(ctx.n(60, 600)):
+        ts = rng.choice([1, 1, 2, 3, 4, 6, 12])
+        leap = rng.random() < 0.5
+        nd = 366 if leap else 365
+        wrap = k % 2 == 1
+        if wrap:
+            a, b = nd - 1 - rng.choice([0, 1, 2, 10]), rng.choice([0, 1, 2, 20])
+        else:
+            a = rng.choice([0, 57, 58, 59, rng.randrange(nd - 40)])
+            b = min(nd - 1, a + rng.choice([0, 1, 2, 5, 12]))
+        window = False                                          # continuous Weas hold whole days (a window makes them discontinuous)
+        ssh, seh = 0, 23
+        per = list(_md(leap, a)) + list(_md(leap, b))
+        days = _source_days(leap, per)
+        L = len(days)
+        if k % 7 == 0:
+            sub, tag = _sub_period(rng, leap, per)
+        else:                                                   # the exact boundary days, one inside, one outside
+            i = min(L - 1, rng.choice([0, 0, 1, L - 1, L - 1, max(0, L - 2), rng.randrange(L)]))
+            j = min(L - 1, rng.choice([i, L - 1, L - 1, 0 if i == 0 else i, rng.randrange(i, L)]))
+            da, db = days[i], days[j]
+            tag = '%s_to_%s' % ('first' if i == 0 else 'last' if i == L - 1 else 'inner', 'first' if j == 0 else 'last' if j == L - 1 else 'inner')
+            r = rng.random()
+            out_before = days[0] - 1 if (days[0] - 1 >= 0 and (not wrap or days[0] - 1 > days[-1])) else None
+            out_after = days[-1] + 1 if (days[-1] + 1 <= nd - 1 and (not wrap or days[-1] + 1 < days[0])) else None
+            if r < 0.15 and out_before is not None:
+                da, tag = out_before, 'outside_to_' + tag.split('_to_')[1]
+            elif r < 0.3 and out_after is not None:
+                db, tag = out_after, tag.split('_to_')[0] + '_to_outside'
+            sub = list(_md(leap, da)) + list(_md(leap, db))
+        if window:
+            rsh = rng.choice([0, ssh, ssh + 1, max(0, ssh - 1)])
+            reh = rng.choice([23, seh, seh - 1, min(23, seh + 1)])
+        else:
+            rsh, reh = rng.choice([(0, 23), (0, 23), (8, 17), (0, 12), (5, 5), (13, 23)])
+        ctx.count('apsub:%s_source_%s%s' % ('wrapping' if wrap else 'plain', tag, '_window' if window else ''))
+        cases.append([per[0], per[1], ssh, per[2], per[3], seh, ts, int(leap), sub[0], sub[1], rsh, sub[2], sub[3], reh, ts, int(leap)])
+
+    def impl_apsub(c):
+        src = AnalysisPeriod(c[0], c[1], c[2], c[3], c[4], c[5], c[6], bool(c[7]))
+        req = AnalysisPeriod(c[8], c[9], c[10], c[11], c[12], c[13], c[14], bool(c[15]))
+        h1, _h2 = _headers(src)
+        coll = HourlyContinuousCollection(h1, list(range(len(src))))
+        return 'ok ' + _show_ap(coll.filter_by_analysis_period(req).header.analysis_period)
+
+    compare_batch(ctx, 'apsub', cases, lambda c: 'apsub ' + ' '.join(map(str, c)), impl_apsub, canon=_canon_ws, key=lambda c: json.dumps(c))
+
+    # zhlag: the series of `three hours earlier` as the sky model receives it, for values that are their own position
+    import ladybug.wea as weamod
+    from ladybug.header import Header
+    from ladybug.datatype.fraction import Fraction as Frac, RelativeHumidity
+    from ladybug.datatype.temperature import Temperature
+    from ladybug.datatype.speed import Speed
+    zcases = []
+    for ts in [1, rng.choice([2, 3]), rng.choice([4, 6, 12])] + ([5, 10, 20] if not ctx.quick else []):
+        leap = rng.random() < 0.5
+        stm, std, endm, endd, kind = _rand_period(rng, leap)
+        if rng.random() < 0.5:
+            endm, endd = stm, std                          # one day: for 12 and more steps per hour the lag reaches back across half the series
+        ctx.count('zhlag:ts=%d' % ts)
+        zcases.append([ts, int(leap), stm, std, endm, endd])
+    orig = getattr(weamod, 'zhang_huang_solar_split', None)
+    seen = {}
+
+    def impl_zhlag(c):
+        ts, leap = c[0], bool(c[1])
+        ap = AnalysisPeriod(c[2], c[3], 0, c[4], c[5], 23, ts, leap)
+        n = len(ap)
+        mk = lambda t, u, v: HourlyContinuousCollection(Header(t, u, ap), v)
+        got = []
+
+        def spy(alt, doys, cc, rh, db, db3, *rest, **kw):
+            got.append(list(db3))
+            return orig(alt, doys, cc, rh, db, db3, *rest, **kw)
+        weamod.zhang_huang_solar_split = spy
+        try:
+            Wea.from_zhang_huang_solar(_loc(), mk(Frac(), 'fraction', [0.5] * n), mk(RelativeHumidity(), '%', [50.0] * n),
+                                       mk(Temperature(), 'C', [i / 1000.0 for i in range(n)]), mk(Speed(), 'm/s', [2.0] * n))   # the value names its position (milli-degrees: a temperate series)
+        finally:
+            weamod.zhang_huang_solar_split = orig
+        if len(got) != 1 or len(got[0]) != n:
+            seen[json.dumps(c)] = None
+            return None
+        return 'ok ' + ' '.join(str(int(round(x * 1000))) for x in got[0])
+
+    if orig is not None:
+        drv = ctx.driver()
+        lines = ['zhlag %d %d %s' % (c[0], len(_period_moys(c[0], bool(c[1]), *c[2:])), ' '.join(map(str, range(len(_period_moys(c[0], bool(c[1]), *c[2:]))))))
+                 for c in zcases]
+        outs = drv.run(lines)
+        for c, line, mo in zip(zcases, lines, outs):
+            try:
+                io = impl_zhlag(c)
+            except Exception as e:
+                io = 'err:' + err_name(e)
+            if io is None:                                  # the constructor does not hand a whole series to the sky model: not observable here
+                ctx.count('zhlag:not_observable')             # (the oracle op `sky`/zh checks the values at every step)
+                continue
+            ctx.compared += 1
+            ctx.count('op:zhlag')
+            ctx.case(('zhlag', json.dumps(c)), nontrivial=not io.startswith('err:'))
+            if _canon_ws(mo) != _canon_ws(io):
+                ctx.disagree('zhlag', {'case': c, 'line': line[:200]}, mo[:300], io[:300])
+    else:
+        ctx.count('zhlag:not_observable')
 
 
 def _count_file(n):
@@ -3241,6 +3403,63 @@ def _rand_filter(rng, ts, leap, moys_src, whole_year_only=True, outside_ok=True)
     return {'kind': 'sun_up', 'min_alt': rng.choice([0, 0, -6, 10])}
 
 
+def _source_days(leap, per):
+    a, b = _doy0(leap, per[0], per[1]), _doy0(leap, per[2], per[3])
+    nd = 366 if leap else 365
+    return list(range(a, b + 1)) if a <= b else list(range(a, nd)) + list(range(0, b + 1))
+
+
+def _sub_period(rng, leap, per):
+    """Round 6: (stm, std, endm, endd) of a request that selects a contiguous run of days of the whole-day source `per`, boundary
+    biased: first / last day of the source, one inside, one OUTSIDE (such a request is clipped to the source); + a tag."""
+    nd = 366 if leap else 365
+    days = _source_days(leap, per)
+    L = len(days)
+    i = min(L - 1, max(0, rng.choice([0, 0, 1, L - 1, L - 1, L - 2, rng.randrange(L)])))
+    j = min(L - 1, rng.choice([i, i, L - 1, L - 1, i + 1, rng.randrange(i, L)]))
+    a, b = days[i], days[j]
+    tag = ('first' if i == 0 else 'last' if i == L - 1 else 'inner') + '_to_' + ('first' if j == 0 else 'last' if j == L - 1 else 'inner')
+    wraps = days[0] > days[-1]
+    r = rng.random()
+    if r < 0.12 and L < nd - 2:
+        before = days[0] - 1
+        if (before >= 0 if not wraps else before > days[-1]):
+            a, tag = before, 'day_before_source_to_' + tag.split('_to_')[1]
+    elif r < 0.24 and L < nd - 2:
+        after = days[-1] + 1
+        if (after <= nd - 1 if not wraps else after < days[0]):
+            b, tag = after, tag.split('_to_')[0] + '_to_day_after_source'
+    return list(_md(leap, a)) + list(_md(leap, b)), tag
+
+
+def _sub_matrix(rng, big):
+    """Round 6: in EVERY run, requests on the exact boundary days of a plain and of a year-wrapping continuous source."""
+    for wrap in (False, True):
+        for ts in ([rng.choice([1, 2, 3])] if not big else [1, 2, 4]):
+            leap = rng.random() < 0.5
+            nd = 366 if leap else 365
+            if wrap:
+                a, b = nd - 1 - rng.choice([0, 1, 3, 10]), rng.choice([0, 1, 2, 58, 59, 79])
+            else:
+                a = rng.choice([0, 57, 58, rng.randrange(nd - 12)])
+                b = min(nd - 1, a + rng.choice([1, 2, 5, 9]))
+            per = list(_md(leap, a)) + list(_md(leap, b))
+            days = _source_days(leap, per)
+            L = len(days)
+            spans = [(0, 0), (L - 1, L - 1), (max(0, L - 2), L - 1), (0, min(1, L - 1)), (0, L - 1)]
+            if wrap:
+                k = days.index(0)                               # 1 Jan: the span around the year end, and the two one-sided ones
+                spans += [(k - 1, k), (k, L - 1), (0, k - 1)]
+            if L > 2:
+                spans.append((1, L - 2))
+            for i, j in spans:
+                sh, eh = (0, 23) if rng.random() < 0.7 else rng.choice([(8, 17), (0, 12), (13, 23), (5, 5)])
+                f = {'kind': 'period', 'args': list(_md(leap, days[i])) + [sh] + list(_md(leap, days[j])) + [eh]}
+                yield {'kind': 'partial', 'ts': ts, 'leap': leap, 'period': per, 'mode': 0, 'filter': f, 'then_write': rng.random() < 0.3}, \
+                    '%s_source_%s_to_%s' % ('wrapping' if wrap else 'plain', 'first' if i == 0 else 'last' if i == L - 1 else 'inner',
+                                            'first' if j == 0 else 'last' if j == L - 1 else 'inner')
+
+
 def _oracle_cases(ctx):
     rng = ctx.rng
     big = not ctx.quick
@@ -3289,6 +3508,20 @@ def _oracle_cases(ctx):
         if big:                                   # quick: the fixed corpus holds the annual leap-year file
             yield 'file_rt', {'kind': 'annual', 'ts': ts, 'leap': leap, 'period': [1, 1, 12, 31], 'mode': 0}
         yield 'dict_rt', {'kind': 'annual', 'ts': ts, 'leap': leap, 'period': [1, 1, 12, 31], 'mode': 0}
+    # round 6 (a branch chosen from a summary of the data - row count, first row, length - instead of the data): Weas whose SIZE is that of
+    # another kind of Wea: a whole year of steps that starts on another day than 1 Jan (wraps the year end), the same minus one day /
+    # plus nothing, written and read back (file, dictionary) - every value must come back at the step it was written for
+    for k in range(3 if not big else 9):
+        ts = 1 if (not big or k < 6) else rng.choice([2, 3])
+        leap = rng.random() < 0.5
+        nd = 366 if leap else 365
+        d0 = rng.choice([1, nd - 1, 181, 273, 59, rng.randrange(1, nd)])
+        short = k % 3 == 2                                  # k % 3: 0 = file, whole year; 1 = dictionary, whole year; 2 = file, one day short
+        d1 = (d0 - 2) % nd if short else d0 - 1
+        (m0, da0), (m1, da1) = _md(leap, d0), _md(leap, d1)
+        ctx.count('rt:year_sized_%s' % ('one_day_short' if short else 'wrapping_full_year_' + ('dict' if k % 3 == 1 else 'file')))
+        inp = {'kind': 'partial', 'ts': ts, 'leap': leap, 'period': [m0, da0, m1, da1], 'mode': rng.choice([0, 1]), 'onhour': False}
+        yield ('dict_rt' if k % 3 == 1 else 'file_rt'), inp
     # filters (source: annual / partial / sparse), some followed by a file round trip
     bases = {}
     for _ in range(ctx.n(42, 800) * (3 if ctx.searching else 1)):
@@ -3313,6 +3546,12 @@ def _oracle_cases(ctx):
             # a period filter must lie inside a partial source (C02: subset rule); use the hour window only
             f['args'][0:2] = inp['period'][0:2] if inp['kind'] == 'partial' else [1, 1]
             f['args'][3:5] = inp['period'][2:4] if inp['kind'] == 'partial' else [12, 31]
+            if inp['kind'] == 'partial' and rng.random() < 0.7:
+                # round 6 (strictness of a range bound): a sub-period whose first / last day sits exactly ON the first / last day of the
+                # source, one day inside, or one day outside (clipped to the source), for plain and for year-wrapping sources
+                sub, tag = _sub_period(rng, leap, inp['period'])
+                f['args'][0:2], f['args'][3:5] = sub[0:2], sub[2:4]
+                ctx.count('filter:sub_period_%s_of_%s_source' % (tag, 'wrapping' if kind == 'wrap' else 'plain'))
         _rand_forms(rng, f)
         if f.get('via'):
             ctx.count('filter:period_via_' + f['via'])
@@ -3337,6 +3576,16 @@ def _oracle_cases(ctx):
             ctx.count('filter:sun_up_southern_or_equator')
         ctx.count('filter:%s_on_%s' % (f['kind'], inp['kind']))
         yield 'filter', inp
+    for inp, tag in _sub_matrix(rng, big):
+        ctx.count('filter:boundary_day_' + tag)
+        if rng.random() < 0.35 and len(_moys_of(inp)) <= 2500:
+            ctx.count('siblings:boundary_day_sub_period')
+            yield 'siblings', {'ts': inp['ts'], 'leap': inp['leap'], 'period': inp['period'], 'mode': rng.choice([0, 1]), 'filter': inp['filter'],
+                               'onhour': False, 'reads': rng.sample(['dict', 'file', 'dup', 'iter', 'hrs', 'get'], 1)}
+        else:
+            if rng.random() < 0.15:
+                inp['imm'] = True
+            yield 'filter', inp
     # round 4 (kind e): in EVERY run every kind of filter request on every sibling class (continuous, discontinuous, immutable twins)
     for rep in range(1 if not big else 8):
         ts = rng.choice([1, 2, 3, 4, 6]) if rep else rng.choice([2, 3])
@@ -3510,8 +3759,11 @@ def _oracle_cases(ctx):
         ctx.count('branch:from_stat_file')
         yield 'sky', {'model': 'stat', 'file': fn, 'ts': ts, 'leap': leap, 'loc': None, 'idx': _axis_indices(rng, ts, leap, 40),
                       'use_2017': rng.random() < 0.3}
-    for k in range(2 if not big else 10):
-        ts = rng.choice([1, 2])
+    for k in range(3 if not big else 12):
+        # round 6 (a time lag given in hours where the series is indexed in steps): in EVERY run a sub-hourly input (the dry bulb temperature of
+        # three HOURS earlier is 3 * timestep positions back) next to the hourly one
+        ts = rng.choice([2, 3, 4]) if k == 0 else 1 if k == 1 else rng.choice([2, 4, 6, 12]) if k == 2 else rng.choice([1, 2, 3, 4, 5, 6, 10])
+        ctx.count('sky:zhang_huang_ts=%d' % ts)
         leap = rng.random() < 0.5
         stm, std, endm, endd, kind = _rand_period(rng, leap)
         if kind == 'wrap':
@@ -3615,7 +3867,7 @@ def oracle(ctx):
                 ctx.fail('order', short, res.get('required'), res.get('observed'), res.get('sig'))
 
 
-LEVEL_TEXT = ('Machine-checked Lean 4 theorems (44) over an executable model of wea.py (on top of the C08/C04 models): '
+LEVEL_TEXT = ('Machine-checked Lean 4 theorems (51) over an executable model of wea.py (on top of the C08/C04 models): '
               'entry i of _get_datetimes and step i of every annual Wea are minute 60*i/ts (+30 when hourly and not '
               'on-hour) for all 12 timesteps, normal and leap, and coincide; whole-day partial data (non-wrapping and '
               'wrapping) sits on the closed-form grid from its first hour; write -> read is the identity on the time '
@@ -3642,7 +3894,11 @@ LEVEL_TEXT = ('Machine-checked Lean 4 theorems (44) over an executable model of 
               'same numbers (token level: every field through int(), overnight / wrapping decided on the numbers, written minutes = the C04 '
               'membership predicate) and its selection keeps direct and diffuse values paired; get_irradiance_value_for_hoy returns step k iff the '
               'product hoy * timestep lies in [k, k + 1) - true for every step in exact arithmetic, refuted on the IEEE product for 4-minute data '
-              '(known finding).')
+              '(known finding).  Round 6: a period request whose first and last day lie on days a partial continuous source holds (its own first and last day '
+              'included, plain or wrapping the year end) is the period the source is filtered with, a day is replaced only if strictly outside; the '
+              'Zhang-Huang constructor reads the earlier dry bulb temperature 3 * timestep positions back = exactly 180 minutes earlier on the grid '
+              '(3 positions are 180 minutes iff the data is hourly), wrapping to the end of the series at its start; a year-sized file is read by its '
+              'rows: a whole year from another first day comes back over that period, never as 1 Jan - 31 Dec.')
 LEVEL_NOTE = ('Trusted: Lean kernel; axioms propext/Classical.choice/Quot.sound only; the correspondence run (agreement '
               'on generated inputs only); CPython string formatting/float parsing modelled at token level (the IEEE '
               'product of the sparse path is checked for all 1440 minutes on every run); collection filters (C02), '
